@@ -426,6 +426,50 @@ def D16():
     return f
 
 
+def D17():
+    """C15/C05: a create interrupted between the manifest's and the chain's replace leaves an unlisted manifest"""
+    import ascmhl.chain_xml_parser as CP
+
+    f = []
+    with tempdir() as d:
+        r = _root(d)
+        mk(r, {"a.txt": "a", "s/b.txt": "b"})
+        run("create", [r, "-h", "md5"], NOW)
+        orig = CP.write_chain
+
+        def boom(*a, **k):
+            raise KeyboardInterrupt()
+
+        CP.write_chain = boom
+        try:
+            try:
+                run("create", [r, "-h", "md5"], "2026-03-01 12:00:07")
+            except BaseException:
+                pass
+        finally:
+            CP.write_chain = orig
+        asc = os.path.join(r, "ascmhl")
+        left = sorted(x for x in os.listdir(asc) if x.startswith("0002_") and x.endswith(".mhl"))
+        if not left:
+            return f  # the writer no longer leaves the manifest behind: nothing to judge
+        x = run("info", [r], NOW)
+        if "Generation 2" in x.out:
+            f.append("info lists the interrupted generation 2 although the chain file does not list it")
+        # the leftover is not protected by any chain entry: it must not be part of the history
+        fp = os.path.join(asc, left[0])
+        b = open(fp, "rb").read()
+        open(fp, "wb").write(b.replace(b"a.txt", b"b.txt", 1))
+        x = run("verify", [r], NOW)
+        if x.exit != 0:
+            f.append(f"verify after editing the unlisted leftover manifest: exit {x.exit}")
+        x = run("create", [r, "-h", "md5"], "2026-03-01 12:00:09")
+        ch = rt.read_chain(os.path.join(asc, "ascmhl_chain.xml"))
+        seqs = [int(e["seq"]) for e in ch] if ch and "seq" in ch[0] else None
+        if x.exit != 0 or (seqs is not None and seqs != list(range(1, len(seqs) + 1))):
+            f.append(f"the next create exits {x.exit} and leaves the chain sequence numbers {seqs}")
+    return f
+
+
 ALL = {
     k: v
     for k, v in list(globals().items())
